@@ -559,7 +559,7 @@ class C25(C.Check):
                                    "really_killed_chains": n_real, "by_mode": modes,
                                    "by_strategy": {st: sum(1 for o in self.obs if o[0]["strategy"] == st) for st in ("all", "latest")},
                                    "ops_per_run": [len(r["ops"]) for _, r in self.refs]},
-            "disagreements": len(bad), "exhaustive": "all crash points of each traced run",
+            "disagreements": len(bad), "exhaustive": False, "exhaustive_within": "all crash points of each traced run",
         })
         return bad
 
